@@ -25,6 +25,9 @@ Fl(hp, hv, hf) == [hp |-> hp, hv |-> hv, hf |-> hf]
 MCFlagsQuick == {Fl(TRUE, "all", "all"), Fl(TRUE, "none", "notfirst"), Fl(FALSE, "first", "all")}
 MCFlagsAll == {Fl(TRUE, "all", "all"), Fl(TRUE, "none", "notfirst"), Fl(FALSE, "first", "all"),
                Fl(TRUE, "notfirst", "none"), Fl(TRUE, "first", "first"), Fl(FALSE, "none", "none")}
+\* exhaustive histories of the thorough tier (the history count grows with the square of this set)
+MCFlagsThorough == {Fl(TRUE, "all", "all"), Fl(TRUE, "none", "notfirst"), Fl(FALSE, "first", "all"),
+                    Fl(TRUE, "notfirst", "first")}
 MCBoxes == {ZeroBox, TriBox(8, 0, 8, 0, 0, 8), TriBox(6, 0, 10, 0, 0, 12),
             TriBox(8, 4, 8, 4, -4, 8), TriBox(10, -3, 8, 2, 4, 12), TriBox(6, 3, 6, -3, 3, 4)}
 Cf(off, v, f) == [off |-> off, vel |-> v, frc |-> f]
